@@ -11,9 +11,30 @@ props_for() { # which checks to run for a change that targets property $1
   esac
 }
 mkdir -p /tmp/mut-results
+# FAST=1: only the targeted check and the checks that caught the change before (a regression run after the
+# simulator changed), instead of the whole neighbourhood
 run_one() {
   id="$1"; patch="$2"; target="$3"
-  tools/try_mutant.sh "re-$id" "$patch" $(props_for "$target") 2>&1 | grep "^MUTANT" > "/tmp/mut-results/re-$id.txt"
+  PR="$(props_for "$target")"
+  if [ "${FAST:-0}" = 1 ]; then
+    PR="$(python3 - "$id" "$target" <<'PY'
+import json, sys, os
+sid, target = sys.argv[1:]
+det = []
+try: det = [p for p in json.load(open("seeded/%s/meta.json" % sid)).get("detected_by", []) if len(p) == 3]
+except Exception: pass
+if not det and os.path.exists("mutants/RESULTS.txt"):
+    for line in open("mutants/RESULTS.txt"):
+        if line.split() and line.split()[0] == sid and "detected_by=" in line:
+            det = [p for p in line.split("detected_by=")[1].split()[0].split(",") if len(p) == 3]
+props = []
+for p in ([target] if target in det or not det else []) + det[:1] + [target]:
+    if p not in props: props.append(p)
+print(" ".join(props[:2]))
+PY
+)"
+  fi
+  tools/try_mutant.sh "re-$id" "$patch" $PR 2>&1 | grep "^MUTANT" > "/tmp/mut-results/re-$id.txt"
   # nothing caught by the quick tier: try the thorough tier of the targeted property
   if ! grep -q "rc=1" "/tmp/mut-results/re-$id.txt"; then
     tools/try_mutant.sh "reT-$id" "$patch" --tier thorough "$target" 2>&1 | grep "^MUTANT" | sed 's/ \(C[0-9][0-9]\) rc=/ \1 THOROUGH rc=/' >> "/tmp/mut-results/re-$id.txt"
